@@ -792,6 +792,16 @@ impl Planner {
                         // CASE can return any type - use Any
                         output_types.push(LogicalType::Any);
                     }
+                    LogicalExpression::Id(_) | LogicalExpression::Labels(_) => {
+                        // id(v) / labels(v) as plan expressions (Gremlin .id() / .label()):
+                        // evaluated like the function calls of the same name
+                        let filter_expr = self.convert_expression(&item.expression)?;
+                        projections.push(ProjectExpr::Expression {
+                            expr: filter_expr,
+                            variable_columns: variable_columns.clone(),
+                        });
+                        output_types.push(LogicalType::Any);
+                    }
                     _ => {
                         return Err(Error::Internal(format!(
                             "Unsupported RETURN expression: {:?}",
